@@ -13,6 +13,7 @@ MOD = __name__
 def kinds(version: str, n: int) -> list:
     evs = [
         [n, 255, 0, 0, 17, version],  # node presentation
+        [n, 255, 0, 0, 18, version],  # node presentation as a repeater node
         [n, 3, 0, 0, 6, ""],  # child presentation
         [n, 3, 1, 0, 2, ""],  # set
         [n, 3, 2, 0, 2, ""],  # req
@@ -51,6 +52,10 @@ class Monitor:
             for f in kinds(self.version, n):
                 if f[2] != 0 or f[1] != 255:
                     self._alpha.append(["line-fail", f])
+        # traffic of the gateway itself (same version: the rules in force do not change)
+        self._alpha.append(["line", [0, 255, 3, 0, 2, self.version]])
+        self._alpha.append(["line", [0, 255, 0, 0, 18, self.version]])
+        self._alpha.append(["line", [0, 255, 3, 0, 9, "log"]])
 
     def events(self) -> list:
         return self._alpha
